@@ -470,12 +470,75 @@ def _validate_file(run, subdir, module, constants, path, gate=True, clauses=(), 
                 clause=inv.group(1) if inv else None, out=out)
 
 
+_SKIP_KEYS = {"plan", "ex", "site", "to", "ty", "ety", "how", "what", "msg", "seq", "at", "offus"}
+
+
+def _corrupt(seg, rng, mode):
+    """One small lie in a recorded trace: a changed scalar / list element of one event, or one event dropped."""
+    seg = json.loads(json.dumps(seg))
+    idx = [j for j, e in enumerate(seg) if str(e.get("op", e.get("ev", ""))).lower() != "reset"] or list(range(len(seg)))
+    j = rng.choice(idx)
+    if mode == "drop" and len(seg) >= 3:
+        del seg[j]
+        return seg, "event %d dropped" % j
+
+    def leaves(o, path):
+        if isinstance(o, dict):
+            for k, v in o.items():
+                if k not in _SKIP_KEYS:
+                    yield from leaves(v, path + [k])
+        elif isinstance(o, list):
+            for i, v in enumerate(o):
+                yield from leaves(v, path + [i])
+        elif isinstance(o, (bool, int)):
+            yield path
+    ls = list(leaves(seg[j], []))
+    if not ls:
+        return seg, None
+    path = rng.choice(ls)
+    o = seg[j]
+    for k in path[:-1]:
+        o = o[k]
+    old = o[path[-1]]
+    o[path[-1]] = (not old) if isinstance(old, bool) else old + 1
+    return seg, "event %d field %s: %r -> %r" % (j, "/".join(map(str, path)), old, o[path[-1]])
+
+
+def _selftest_corrupt(run, subdir, module, constants, segments, label, timeout):
+    """VERIF_CORRUPT=field|drop: instead of validating the recorded traces, validate copies of up to 24 of them with one
+    small lie each and report how many the validator rejects (bin/selftest).  Nothing is added to the verdict."""
+    mode = os.environ["VERIF_CORRUPT"]
+    rng = random.Random(run.seed * 7919 + len(segments))
+    cand = [i for i, sg in enumerate(segments) if len(sg) >= (3 if mode == "drop" else 1)]
+    picks = rng.sample(cand, min(24, len(cand)))
+    rejected, examples = 0, []
+    for i in picks:
+        seg, what = _corrupt(segments[i], rng, mode)
+        if what is None:
+            continue
+        path = run.tmp("c.ndjson")
+        with open(path, "w") as f:
+            for e in seg:
+                f.write(json.dumps(e, separators=(",", ":")) + "\n")
+        r = _validate_file(run, subdir, module, constants, path, gate=True, timeout=timeout)
+        os.unlink(path)
+        if not r["accepted"]:
+            rejected += 1
+        elif len(examples) < 3:
+            examples.append(what)
+    log("SELFTEST validator=%s label=%s mode=%s corrupted=%d rejected=%d%s" % (
+        module, label, mode, len(picks), rejected, ("  accepted e.g.: " + "; ".join(examples)) if examples else ""))
+    return len(segments)
+
+
 def validate(run, subdir, module, constants, segments, clauses, plans=None, max_rej=8, chunk_events=None,
              label="abs", count=True, timeout=1800, into=None):
     """Validate trace segments (each a list of event dicts, first one the Reset event) with the
     TLC trace validator <module>. Rejected segments are diagnosed (which clause) and recorded in
     run.rejections. Returns number of accepted segments."""
     t0 = time.time()
+    if os.environ.get("VERIF_CORRUPT"):
+        return _selftest_corrupt(run, subdir, module, constants, segments, label, timeout)
     # chunking
     if chunk_events is None:
         chunk_events = max(400, sum(len(s) for s in segments) // 14 + 1)
